@@ -89,7 +89,7 @@ def run_lcmv(case, R):
     D, F = case['D'], case['F']
     K = min(case['K'], D - 1) or 1
     cond = min(case['cond'], 1e4)
-    Pn = gen.hpd(rng, D, cond=cond, lead=(F,))
+    Pn = gen.hpd(rng, D, cond=cond, lead=(F,), real=(case['rs'][-1] % 4 == 0))
     A = gen.cnormal(rng, (K, F, D))
     dyadic = bool(rng.integers(0, 2))
     r = rng.choice([0.0, 0.5, 1.0, 2.0, -1.0], size=K) if dyadic else rng.uniform(-2, 2, size=K)
@@ -122,15 +122,22 @@ def rank1(rng, D, F, lead=()):
     return a, sig, sig[..., None, None] * np.einsum('...a,...b->...ab', a, a.conj())
 
 
+def noise_psd(rng, case, D, lead):
+    """Hermitian positive definite noise PSD; every fourth case real-valued with a real dtype (white / diagonal / real covariance)"""
+    if case['rs'][-1] % 4 == 0:
+        return np.ascontiguousarray(gen.hpd(rng, D, cond=min(case['cond'], 1e4), lead=lead, real=True)), True
+    return gen.hpd(rng, D, cond=case['cond'], lead=lead), False
+
+
 def run_souden(case, R):
     from pb_bss.extraction import get_mvdr_vector_souden
     rng = gen.rng_of(case)
     D, F = case['D'], case['F']
     lead = [(), (2,), (2, 2)][case['stack']]
     a, sig, Px = rank1(rng, D, F, lead)
-    Pn = gen.hpd(rng, D, cond=case['cond'], lead=(*lead, F))
+    Pn, real_noise = noise_psd(rng, case, D, (*lead, F))
     ref = int(rng.integers(0, D))
-    info = dict(D=D, F=F, lead=list(lead), cond=case['cond'], ref=ref)
+    info = dict(D=D, F=F, lead=list(lead), cond=case['cond'], ref=ref, real_noise=real_noise)
     try:
         w = get_mvdr_vector_souden(Px, Pn, ref_channel=ref)
     except Exception as e:
@@ -160,9 +167,11 @@ def run_wmwf(case, R):
     D, F, mu = case['D'], case['F'], case['mu']
     lead = [(), (2,), (2, 2)][case['stack']]
     a, sig, Px = rank1(rng, D, F, lead)
-    Pn = gen.hpd(rng, D, cond=case['cond'], lead=(*lead, F))
+    Pn, real_noise = noise_psd(rng, case, D, (*lead, F))
     ref = int(rng.integers(0, D))
-    info = dict(D=D, F=F, lead=list(lead), cond=case['cond'], ref=ref, mu=mu)
+    if case['rs'][-1] % 3 == 0 and mu > 0:
+        mu = int(max(1, round(mu)))            # integer-typed distortion weights (0, 1, 100 ...) are valid numbers too
+    info = dict(D=D, F=F, lead=list(lead), cond=case['cond'], ref=ref, mu=mu, mu_type=type(mu).__name__, real_noise=real_noise)
     try:
         w = get_wmwf_vector(Px, Pn, reference_channel=ref, distortion_weight=mu)
     except Exception as e:
@@ -180,6 +189,16 @@ def run_wmwf(case, R):
         s = get_mvdr_vector_souden(Px, Pn, ref_channel=ref)
         rv = float(np.abs(w - s).max() / np.abs(s).max())
         R.check('C11.wmwf', rv <= tol, 'wmwf/mu-zero-is-souden', f'WMWF(mu=0) deviates from Souden MVDR by {rv:.3e}', dev=rv, **info)
+    # channel_selection_vector: a one-hot selection is the explicit reference channel
+    try:
+        sel = np.zeros((*lead, F, D)); sel[..., ref] = 1.0          # one selection vector per (leading index, bin)
+        w_sel = np.asarray(get_wmwf_vector(Px, Pn, channel_selection_vector=sel, distortion_weight=mu))
+        dsel = float(np.abs(w_sel - w).max() / np.abs(w).max()) if w_sel.shape == w.shape else np.inf
+        R.check('C11.wmwf', dsel <= tol, 'wmwf/channel-selection-vector', f'one-hot channel_selection_vector differs from reference_channel={ref} by {dsel:.3e}', dev=dsel, **info)
+    except Exception as e:
+        if not instr.is_library_exception(e):
+            raise
+        R.count(f'channel_selection_vector raised {type(e).__name__}')
     c = float(10 ** rng.uniform(-3, 3))
     w2 = get_wmwf_vector(Px * c, Pn * c, reference_channel=ref, distortion_weight=mu)
     sv = float(np.abs(w2 - w).max() / np.abs(w).max())
